@@ -796,6 +796,9 @@ def judge_ser(ctx, rec, res):
     fail = A[3][1]
     if 0 <= fail < len(want):
         res.evals += 1
+        if A[2][1] >= 4000:
+            # the caller's writer panics: the panic reaches the caller (judged: nothing else is returned)
+            return None if rec.status == "panic" else "the writer's own panic (after %d bytes) to reach the caller" % fail
         return None if rec.status == "err" else "an error (the writer fails after %d bytes)" % fail
     return expect_val(res, rec, ("b", want))
 
@@ -838,6 +841,8 @@ def judge_deser(ctx, rec, res):
                     exp_err = "rejected encoding (%s)" % v
                 else:
                     val = ("pt", (g, v))
+    if mode & 16 and 0 <= fail < L and len(data) >= L:
+        return None if rec.status == "panic" else "the reader's own panic (at byte %d) to reach the caller" % fail
     if exp_err is not None:
         return None if rec.status == "err" else "an error: " + exp_err
     if rec.status != "ok":
